@@ -124,4 +124,11 @@ static Verdict enumerate(int tier, int shard, int nshards, Fields *failing) {
   return Verdict::pass();
 }
 
-const Harness vf::HARNESS = {"C04", gen, check, enumerate, nullptr};
+static Fields from_bytes(const uint8_t *d, size_t n) {
+  Fields f;
+  f.set("text", std::string((const char *)d, n < 400 ? n : 400));
+  f.seti("src", 99);
+  return f;
+}
+
+const Harness vf::HARNESS = {"C04", gen, check, enumerate, nullptr, from_bytes};
